@@ -157,6 +157,26 @@ fn main() {
         let fill = if k % 8 == 0 { col.fill } else { -1 };
         run_case(&mut rec, &json!({"d": {"kind":"prim","shape":shape,"style":style_desc(fill, col.stroke, w, al as u32)}, "by": [by.0, by.1]}));
     }
+    // dotted strokes (round dots need stroke width >= 4 and a stroke area >= 8x8) x every offset incl. the far ones
+    {
+        let mut k = 0usize;
+        for (w, h) in [(8u32, 8u32), (9, 14), (20, 11), (13, 13), (30, 8)] {
+            for sw in [1u32, 3, 4, 5, 8] {
+                for al in 0..3u32 {
+                    for (oi, by) in offsets.iter().enumerate() {
+                        k += 1;
+                        if !th && (k + oi) % 2 == 0 && oi < 8 {
+                            continue;
+                        }
+                        let mut style = style_desc(if k % 3 == 0 { col.fill } else { -1 }, col.stroke, sw, al);
+                        style["dot"] = json!(1);
+                        let shape = json!({"k":"rect","r":[3, -2, w, h]});
+                        run_case(&mut rec, &json!({"d": {"kind":"prim","shape":shape,"style":style}, "by": [by.0, by.1]}));
+                    }
+                }
+            }
+        }
+    }
     // nearly parallel joints (segments with almost the same or the opposite direction) of thick polylines and
     // triangles, moved to negative coordinates: the join falls back to edge end points there
     for k in 0..(if th { 30_000 } else { 2_500 }) {
